@@ -99,7 +99,10 @@ func AuditWriters(p *Program, prop string) []*OblResult {
 		spec := p.Specs[fnName(root)]
 		status := "discharged"
 		reason := ""
-		if spec == nil || !spec.Verify {
+		if spec != nil && spec.Trusted {
+			// not verified: its contract is an assumption, and so is its keeping the type invariants it writes under
+			reason = "ASSUMED: writer with a trusted contract (listed as an assumption, not verified)"
+		} else if spec == nil || !spec.Verify {
 			if p.InlinedSomewhere[fnName(root)] {
 				reason = "verified through inlining into its verified callers"
 			} else {
